@@ -12,6 +12,7 @@
 (* Codewords are bit sequences in STREAM order.  E is "be" or "le".        *)
 (***************************************************************************)
 EXTENDS BitSeqs
+LOCAL INSTANCE SequencesExt
 
 Code(f, k, b) == [f |-> f, k |-> k, b |-> b]
 CUnary   == Code("unary", 0, <<>>)
@@ -178,9 +179,22 @@ DecField(E, S, p, n) ==
 \* position of the first 1 at or after p; -1 if there is none before the end
 \* of a finite stream.  On an infinite stream with an all-zero tail the search
 \* does not terminate in the library either; callers never ask.
-RECURSIVE FirstOnePos(_, _)
-FirstOnePos(S, p) == IF p >= SLen(S) THEN -1
-                     ELSE IF RawBit(S, p) = 1 THEN p ELSE FirstOnePos(S, p + 1)
+NonZero(b) == b # 0
+\* first one inside byte v at or after in-byte stream offset k (0..7), 8 if none
+FirstInByte(e, v, k) ==
+    LET bits == IF e = "be" THEN ByteBits[v] ELSE Rev(ByteBits[v])
+        j == IF k > 7 THEN 0 ELSE SelectInSubSeq(bits, k + 1, 8, IsOne)
+    IN  IF j = 0 THEN 8 ELSE j - 1
+FirstOnePos(S, p) ==
+    IF p >= SLen(S) THEN -1
+    ELSE IF "bits" \in DOMAIN S
+    THEN LET k == SelectInSubSeq(S.bits, p + 1, Len(S.bits), IsOne) IN IF k = 0 THEN -1 ELSE k - 1
+    ELSE LET b0 == p \div 8
+             f0 == FirstInByte(S.e, S.bytes[b0 + 1], p % 8)
+         IN  IF f0 < 8 THEN 8 * b0 + f0
+             ELSE IF b0 + 2 > Len(S.bytes) THEN -1
+             ELSE LET b1 == SelectInSubSeq(S.bytes, b0 + 2, Len(S.bytes), NonZero)
+                  IN  IF b1 = 0 THEN -1 ELSE 8 * (b1 - 1) + FirstInByte(S.e, S.bytes[b1], 0)
 DecUnary(S, p) == LET q == FirstOnePos(S, p)
                   IN  IF q < 0 THEN Short ELSE Ok(FromInt(q - p), q + 1)
 
